@@ -110,6 +110,15 @@ def check_ctor(ctx, st, emb=(0.0, 1.0)):
     tv = A + B * 1.2345
     if not abs(obj.unscale(obj.scale(tv)) - tv) < 1e-12 * SC:
         return viol("scale_unscale", {})
+    # the same for an array of values; the array given is only read
+    ta = np.array([tv, A + B * 0.5, A - B * 2.0])
+    ta_keep = ta.copy()
+    sa = obj.scale(ta)
+    ua = obj.unscale(sa)
+    if not np.array_equal(ta, ta_keep) or sa is ta:
+        return viol("scale_modifies_its_argument", {"given": ta_keep.tolist(), "after": ta.tolist()})
+    if not np.all(np.abs(ua - ta_keep) < 1e-12 * SC) or not np.all(np.abs(sa * obj.scale_factor - ta_keep) < 1e-12 * SC):
+        return viol("scale_unscale", {"array": True})
     if kind in ("Uniform", "BoundedGaussian"):
         lo, hi = ext(c["lo"]), ext(c["hi"])
         pts_in = [A + B * float(p) for p in out["support"]]
